@@ -119,7 +119,7 @@ func plans(prop string, thorough bool, seed int64) []plan {
 		}
 		var m Mode
 		if prop == "C06" {
-			if pp.pol.Kind != "lag" {
+			if pp.pol.Kind == "partition" {
 				continue // a partition that never heals is outside the premise of C06
 			}
 			m = livenessMode(pp.pol.String(), pp.byz)
